@@ -322,6 +322,9 @@ def match_known(v, known):
             # the two results differ ONLY in pairs whose raw similarity and its 4-decimal rounding disagree about the comparison
             if case.get('entry') == 'join' and case.get('which') in ('jaccard', 'cosine', 'dice') and case.get('straddling_only') is True:
                 return k
+        elif m.get('kind') == 'bag_mode_pipeline':
+            if case.get('entry') == 'join' and case.get('bag_mode') is True and case.get('bag_mode_repeats') is True:
+                return k
         elif m.get('kind') == 'tiny_threshold':
             t = case.get('threshold')
             if isinstance(t, float) and 0 < t < float(m['below']):
